@@ -262,8 +262,8 @@ package eventbus
 //@   at call:PublishHook#1 assert [C08.before.first] {C08} cnt(deliver) + cnt(spawn) == 0
 //@   at call:PublishHookContext#1 assert [C08.beforeCtx.first] {C08,C09} cnt(deliver) + cnt(spawn) == 0
 //@   at call:PublishHook#1 assert [C08.before.args] {C08} true
-//@   at call:PublishHook#2 assert [C08.after.last] {C08} rangeindex__1 == len(handlersCopy)
-//@   at call:PublishHookContext#2 assert [C08.afterCtx.last] {C08} rangeindex__1 == len(handlersCopy)
+//@   at call:PublishHook#2 assert [C08.after.last] {C08,C01} rangeindex__1 == len(handlersCopy)
+//@   at call:PublishHookContext#2 assert [C08.afterCtx.last] {C08,C01} rangeindex__1 == len(handlersCopy)
 //@   ensures [C08.hooks.args] {C08} (bus.beforePublish != nil ==> lastarg(beforeHook, 1) == typeOf(T) && payload(lastarg(beforeHook, 2, Iface)) == event)
 //@        && (bus.afterPublish != nil ==> lastarg(afterHook, 1) == typeOf(T) && payload(lastarg(afterHook, 2, Iface)) == event)
 //@        && (bus.beforePublishCtx != nil ==> lastarg(beforeHookCtx, 2) == typeOf(T) && payload(lastarg(beforeHookCtx, 3, Iface)) == event && descends(lastarg(beforeHookCtx, 1, Iface), ctx))
